@@ -1093,7 +1093,8 @@ pub open spec fn named<V>(m: Map<String, V>, name: &str) -> Option<V> {
 pub assume_specification<T: Clone>[ <T as std::borrow::ToOwned>::to_owned ](s: &T) -> (r: T)
     ensures call_ensures(T::clone, (s,), r);
 
-/// the range an eager reader must return for the stored sheet range `sheet` (property C08; `None`: nothing acceptable exists -- cannot happen)
+/// the range an eager reader must return for the stored sheet range `sheet` (property C08: starts at row n if the sheet reaches row n,
+/// "otherwise it is empty"; never a panic)
 pub open spec fn eager_result_ok(hr: HeaderRow, sheet: Range<Data>, r: Range<Data>) -> bool {
     match hr {
         HeaderRow::FirstNonEmptyRow => r == sheet,
